@@ -253,3 +253,22 @@ class CFG:
 
     def statements(self):
         return [n for n in self.g.nodes if isinstance(n, ast.AST)]
+
+    def reaching_defs(self, name, use):
+        """Statements that bind the plain name `name` and reach `use` along some path on which the name is not bound again.
+        ENTRY is included when `use` can be reached without any binding (parameter, closure, or unbound)."""
+        from .astutil import assigned_targets
+        defs = []
+        for s in self.statements():
+            if any(isinstance(t, ast.Name) and t.id == name for t in assigned_targets(s)):
+                defs.append(s)
+        out = []
+        for d in defs + [ENTRY]:
+            if d is use and d != ENTRY:
+                # a statement reaches itself only around a loop
+                if any(self.path_avoiding(m, use, defs) or m is use for m in self.g.successors(d) if m not in defs or m is use):
+                    out.append(d)
+                continue
+            if self.path_avoiding(d, use, [x for x in defs if x is not d]):
+                out.append(d)
+        return out
